@@ -543,6 +543,8 @@ def rule_returns_depend_on_argument(ctx, rep: Report, rid="K8"):
     n = 0
     for fam in ("unwrap", "wrap"):
         for t, f in sorted(h.specialisations(fam).items()):
+            if fam == "unwrap":
+                f = _delegate(h, f)            # the specialisation may hand its argument to a shared helper that does the work
             params = [p.get("name") for p in f.get("inner", []) if p.get("kind") == "ParmVarDecl" and p.get("name")]
             if not params or _body(f) is None:
                 continue
